@@ -254,12 +254,12 @@ where
     /// # Ok(())
     /// # }
     /// ```
-    pub fn query<'r, I>(
+    pub fn query<'r, 'h, I>(
         &'r mut self,
-        header: &vcf::Header,
+        header: &'h vcf::Header,
         index: &I,
         region: &Region,
-    ) -> io::Result<Query<'r, R>>
+    ) -> io::Result<Query<'r, 'h, R>>
     where
         I: BinningIndex,
     {
@@ -271,6 +271,7 @@ where
         Ok(Query::new(
             self.get_mut(),
             chunks,
+            header,
             reference_sequence_id,
             region.interval(),
         ))
